@@ -44,7 +44,10 @@ CLAIM = {
              "with sort traps, dot-file decoys, `[..]`/`**` through recorded glob answers), materialised as a FakeFileSystem map and "
              "as a real directory; the (path, entry) callback sequences, every glob call, error kinds (empty glob, cycles, parse "
              "errors, non-UTF-8, missing root) are diffed against the model, and the oracle checks delivered == unsplit ledger, "
-             "tags == containing file, reports/accounts/`okane primitive flatten`/`okane balance` equal to the unsplit ledger's."),
+             "tags == containing file, reports/accounts/`okane primitive flatten`/`okane balance` equal to the unsplit ledger's. Character classes (third session): `[..]` / `[!..]` are inside the modelled fragment of the glob crate (the bracket arm of Pattern::new, "
+             "parse_char_specifiers, in_char_specifiers): C11_class_matches (a class takes exactly one character, the one its specifiers describe, "
+             "never a leading dot, never a separator), C11_dotfile / C11_wildcard_no_separator extended to classes; only `**` is still answered "
+             "from the recorded glob results."),
     "note": ("glob crate internals, std::fs::canonicalize (modelled as lexical resolution on a tree without symlinks), std::path "
              "component parsing/ordering are modelled, not verified. Patterns whose component starts with a literal dot followed by "
              "a wildcard (`.h*`) match on FakeFileSystem but never on ProdFileSystem (glob 0.3.2 drops dot entries for every "
@@ -56,7 +59,7 @@ CLAIM = {
 NS = "Okane.Load."
 THEOREMS = [NS + t for t in [
     "C11_expand", "C11_delivered", "C11_load_eq_expand", "C11_cut", "C11_split", "expand_single", "C11_empty", "C11_empty_load",
-    "C11_order_sorted", "C11_order_in_place", "C11_dotfile", "C11_dotfile_in_path", "C11_wildcard_no_separator",
+    "C11_order_sorted", "C11_order_in_place", "C11_dotfile", "C11_dotfile_in_path", "C11_wildcard_no_separator", "C11_class_matches",
     "C11_dotfile_fake", "C11_terminates", "C11_terminates_load", "C11_cycle", "C11_self_include", "canonFake_idem",
     "C11_fake_load_eq_expand", "C11_fake_terminates", "expand_mono", "C11_terminates_canon", "resolveReal_fixed",
     "prodCanon_idem", "C11_prod_load_eq_expand", "C11_split_fake_prod", "C11_prod_terminates",
@@ -226,9 +229,14 @@ class Cutter:
             return pattern
         elif mode == "class":
             names = ["k%d%s.ledger" % (k, s) for s in ["a", "b", "c"]][:npieces]
-            pattern = "k%d[a-c].ledger" % k
+            # the same three files through differently spelled classes (range, list, range + single, complement, `-` as a member)
+            pattern = "k%d%s.ledger" % (k, r.choice(["[a-c]", "[abc]", "[a-bc]", "[!d-z]", "[!dD-]", "[ca-b]", "[a-c-]"]))
             sub = []
-            self.files[self.path(dir_comps + ["k%dd.ledger" % k])] = "outside the class\n"
+            cls = pattern[len("k%d" % k):-len(".ledger")]
+            for ch in ("d", "D", "-", "ab", "", "z"):
+                # files next to the matches that the class must NOT take (decided by the class as written, see class_has)
+                if len(ch) != 1 or not class_has(cls, ch):
+                    self.files[self.path(dir_comps + ["k%d%s.ledger" % (k, ch)])] = "not matched by the class %s\n" % cls
         else:  # rec: `**` spans directories
             base = "r%d" % k
             rels = [["a.ledger"], ["m", "b.ledger"], ["m", "n", "c.ledger"]][:npieces]
@@ -240,6 +248,23 @@ class Cutter:
         for nm, piece in zip(order, pieces):
             self.build(piece, dir_comps + sub, nm, depth + 1, closed="dir" if mode == "globsub" else None)
         return pattern
+
+
+def class_has(cls, ch):
+    """does the bracket expression `cls` (`[..]` / `[!..]`, as glob's parse_char_specifiers reads it) contain the character?"""
+    body = cls[1:-1]
+    neg = body.startswith("!")
+    if neg:
+        body = body[1:]
+    i, hit = 0, False
+    while i < len(body):
+        if i + 3 <= len(body) and body[i + 1] == "-":
+            hit = hit or body[i] <= ch <= body[i + 2]
+            i += 3
+        else:
+            hit = hit or body[i] == ch
+            i += 1
+    return hit != neg
 
 
 def make_case(cid, rng, entries_text, bin_run, root_in_subdir=None):
@@ -425,6 +450,23 @@ def negative_cases(prefix):
     for k in range(1, 41):
         deep["n/" * k + "f.ledger"] = "; %d\n" % k + ("\ninclude n/f.ledger\n" if k < 40 else "")
     add("root.ledger", deep, dict(ok, delivered=41), "a chain of 40 nested includes, each one directory deeper")
+    # character classes: one character each; never a leading dot, never a separator; `]` first is a member; what Pattern::new refuses
+    add("root.ledger", {"root.ledger": "include p/[.a]x.ledger\n", "p/.x.ledger": "; dot\n", "p/ax.ledger": "; a\n"}, dict(ok, delivered=1),
+        "a class holding `.` does not match a leading dot")
+    add("root.ledger", {"root.ledger": "include p/[!a]x.ledger\n", "p/.x.ledger": "; dot\n", "p/bx.ledger": "; b\n", "p/ax.ledger": "; a\n"},
+        dict(ok, delivered=1), "nor does a complement class")
+    add("root.ledger", {"root.ledger": "include p[/]x.ledger\n", "p/x.ledger": "; x\n"}, {"fake": "IO:NotFound", "prod": "InvalidIncludeGlob", "delivered": 0},
+        "a class holding `/` does not match the separator (in memory: no match; on disk the glob crate compiles the pattern component by "
+        "component and refuses `p[`)")
+    add("root.ledger", {"root.ledger": "include q[]]x.ledger\n", "q]x.ledger": "; bracket\n", "qax.ledger": "; a\n"}, dict(ok, delivered=1),
+        "`]` right after `[` is a member of the class")
+    add("root.ledger", {"root.ledger": "include q[!]]x.ledger\n", "q]x.ledger": "; bracket\n", "qax.ledger": "; a\n"}, dict(ok, delivered=1),
+        "... and of the complement class")
+    add("root.ledger", {"root.ledger": "include r[a-c-e]x.ledger\n", "rbx.ledger": "; b\n", "r-x.ledger": "; minus\n", "rex.ledger": "; e\n", "rdx.ledger": "; d\n"},
+        dict(ok, delivered=3), "`a-c-e` is the range a-c, a minus sign and e")
+    for bad in ("[!]", "[]", "x[a", "[", "a[!"):
+        add("root.ledger", {"root.ledger": "; a\n\ninclude %s.ledger\n" % bad}, {"fake": "InvalidIncludeGlob", "prod": "InvalidIncludeGlob", "delivered": 1},
+            "invalid pattern: `%s`" % bad)
     # the include line is the very last thing of the file (no line end after it)
     add("root.ledger", {"root.ledger": "; a\n\ninclude b.ledger", "b.ledger": "; b\n"}, dict(ok, delivered=2), "include as the last line, ended by end of file")
     add("root.ledger", {"root.ledger": "include sub/*.ledger", "sub/a.ledger": "; a\n\ninclude ../c.ledger", "c.ledger": "; c"},
